@@ -197,6 +197,11 @@ pub struct World {
     pub prev_effective: BTreeSet<EvRef>,
     /// crash injection: (step id, tick index) at which the acting node's process dies
     pub arm_crash: Option<(u32, u64)>,
+    /// (step id, tick): keep a copy of the node's directory as it is at this tick of the step
+    /// (the statement boundary in front of the transaction a crash is armed in)
+    pub arm_baseline: Option<(u32, u64)>,
+    /// what the node's database held at the `arm_baseline` tick of the last crashed step
+    pub txn_baseline_view: Option<NodeView>,
     /// count storage ticks per step (tick hook installed around every step)
     pub count_ticks: bool,
     /// C13: keep the bytes of every file of a SQLCipher node's directory as they are at each
@@ -284,6 +289,8 @@ impl World {
             prev_view: NodeView::default(),
             prev_effective: BTreeSet::new(),
             arm_crash: None,
+            arm_baseline: None,
+            txn_baseline_view: None,
             count_ticks: false,
             capture_sidecars: false,
             sidecar_captures: vec![],
@@ -510,6 +517,11 @@ impl World {
             Some((sid, k)) if sid == step.id => Some(k),
             _ => None,
         };
+        let base_k = match self.arm_baseline {
+            Some((sid, j)) if sid == step.id && armed_k.is_some() => Some(j),
+            _ => None,
+        };
+        self.txn_baseline_view = None;
         let capture = self.capture_sidecars && self.nodes[node].cfg.backend == BackendKind::SqliteCipher;
         let captures = std::rc::Rc::new(std::cell::RefCell::new(Vec::<(String, String, Vec<u8>)>::new()));
         self.sidecar_captures.clear();
@@ -549,6 +561,11 @@ impl World {
                 };
                 if want_labels {
                     tl.borrow_mut().push(format!("{p:?}"));
+                }
+                if Some(n) == base_k {
+                    let base = dir.with_extension("baseimage");
+                    let _ = std::fs::remove_dir_all(&base);
+                    copy_dir(&dir, &base);
                 }
                 if Some(n) == armed_k {
                     // process death: what the OS still holds is the directory as it is now
@@ -591,6 +608,11 @@ impl World {
                     let _ = std::fs::remove_dir_all(&dir);
                     let _ = std::fs::rename(&image, &dir);
                     self.set_clock_for(node);
+                    let base = dir.with_extension("baseimage");
+                    if base.is_dir() {
+                        self.txn_baseline_view = self.nodes[node].view_of_image(&base);
+                        let _ = std::fs::remove_dir_all(&base);
+                    }
                     let reopened = self.nodes[node].open();
                     self.last_crash = Some((step.id, node, armed_k.unwrap_or(0), label.clone()));
                     match reopened {
@@ -934,6 +956,8 @@ impl World {
                         self.sensitive.insert(hex::encode(k));
                         up = up.image_hash(Some(h)).image_key(Some(k)).image_nonce(Some(n12));
                     }
+                    7 => up = up.name(format!("name-{arg}-{}", "n".repeat(256 + (*arg as usize % 150)))),
+                    8 => up = up.description(format!("description-{arg}-{}", "d".repeat(2001 + (*arg as usize % 600)))),
                     _ => up = up.image_hash(None),
                 }
                 let r = with_mdk!(self.nodes[node].mdk(), m => m.update_group_data(&gid, up));
